@@ -187,6 +187,8 @@ def lossy_sort_key(call):
                 out.append(n["method"])
             elif n["k"] == "Call" and S.callee_name(n) not in ("Reverse", "Some"):
                 out.append(S.callee_name(n) or "?")
+            elif call["method"] in ("sort_by_key", "sort_unstable_by_key", "sort_by_cached_key") and n["k"] == "Binary" and n["op"] in ("==", "!=", "<", ">", "<=", ">=", "&&", "||"):
+                out.append(f"boolean key ({n['op']})")
     return out
 
 
